@@ -19,6 +19,7 @@ def validate(out, module, obsfile, name, classify, workers=8, timeout=3600, coun
         out.traces += n
     out.evaluations += n
     recs = C.lines_of(obsfile, [v[0] for v in r.viols])
+    _rejected[obsfile] = set(v[0] for v in r.viols)
     bad = 0
     for idx, verdict, _ in r.viols:
         rec = recs.get(idx)
@@ -26,6 +27,9 @@ def validate(out, module, obsfile, name, classify, workers=8, timeout=3600, coun
         if out.violation(cls, {"record_index": idx, "verdict": verdict, "record": rec}):
             bad += 1
     return r, n
+
+
+_rejected = {}
 
 
 def negative_control(module, obsfile, name, corrupt, k=5, seed=0):
@@ -36,9 +40,12 @@ def negative_control(module, obsfile, name, corrupt, k=5, seed=0):
     idxs = list(range(len(recs)))
     rng.shuffle(idxs)
     sample, expected = [], []
+    skip = _rejected.get(obsfile, set())
     for i in idxs:
         if len(expected) >= k:
             break
+        if (i + 1) in skip:
+            continue          # only records the specification accepted are used as the baseline
         c = corrupt(json.loads(json.dumps(recs[i])), rng)
         if c is None:
             continue
